@@ -7,6 +7,8 @@ import (
 	"strings"
 )
 
+var _ = fmt.Sprintf
+
 // specFn describes a prelude function visible in specifications.
 type specFn struct {
 	SMT    string
@@ -464,6 +466,52 @@ func (c *specCtx) call(x *SExpr) Value {
 // pureCall handles calls to functions declared "pure" in the contracts:
 // written in specs as Name(args) or recv.Name(args) is not supported; use pkg.Name or T.Name.
 func (c *specCtx) pureCall(x *SExpr) (Value, bool) {
+	// method call on a value: recv.Name(args) -- either ".Name" with the receiver
+	// as first argument, or "a.Name" where a is a local name
+	var recvX *SExpr
+	mname := ""
+	args := x.Args
+	if strings.HasPrefix(x.Name, ".") {
+		recvX, mname, args = x.Args[0], x.Name[1:], x.Args[1:]
+	} else if i := strings.Index(x.Name, "."); i > 0 {
+		q := x.Name[:i]
+		_, isName := c.names[q]
+		_, isLocal := c.e.specLocals[q]
+		_, isBound := c.bound[q]
+		if isName || isLocal || isBound {
+			recvX, mname = &SExpr{Kind: "id", Name: q}, x.Name[i+1:]
+		}
+	}
+	if recvX != nil {
+		rv := c.tr(recvX)
+		if rv.Typ == nil {
+			return Value{}, false
+		}
+		t := types.Unalias(rv.Typ)
+		ptr := false
+		if pt, ok := t.(*types.Pointer); ok {
+			ptr, t = true, types.Unalias(pt.Elem())
+		}
+		nt, ok := t.(*types.Named)
+		if !ok || nt.Obj().Pkg() == nil {
+			return Value{}, false
+		}
+		base := nt.Obj().Pkg().Path() + "."
+		cands := []string{base + nt.Obj().Name() + "." + mname, base + "(*" + nt.Obj().Name() + ")." + mname}
+		_ = ptr
+		for _, key := range cands {
+			fc, ok := c.e.w.Cs.Funcs[key]
+			if !ok || !fc.Pure {
+				continue
+			}
+			ts := []*Term{c.e.box(rv)}
+			for _, a := range args {
+				ts = append(ts, c.e.box(c.tr(a)))
+			}
+			return c.pureValue(key, ts), true
+		}
+		return Value{}, false
+	}
 	for key, fc := range c.e.w.Cs.Funcs {
 		if !fc.Pure {
 			continue
@@ -475,18 +523,50 @@ func (c *specCtx) pureCall(x *SExpr) (Value, bool) {
 				v := c.tr(a)
 				args = append(args, c.e.box(v))
 			}
-			res := c.e.w.pureResult[key]
-			switch res {
-			case SBool:
-				return boolV(App("pure$"+key, SBool, args...)), true
-			case SInt:
-				return intV(App("pure$"+key, SInt, args...)), true
-			default:
-				return uV(App("pure$"+key, SU, args...)), true
-			}
+			return c.pureValue(key, args), true
 		}
 	}
 	return Value{}, false
+}
+
+func (c *specCtx) pureValue(key string, args []*Term) Value {
+	res, ok := c.e.w.pureResult[key]
+	if !ok {
+		res = c.e.w.pureSortOf(key)
+	}
+	switch res {
+	case SBool:
+		return boolV(App("pure$"+key, SBool, args...))
+	case SInt:
+		return intV(App("pure$"+key, SInt, args...))
+	}
+	return uV(App("pure$"+key, SU, args...))
+}
+
+// pureSortOf derives the result sort of a pure function from its contract header.
+func (w *World) pureSortOf(key string) Sort {
+	fc := w.Cs.Funcs[key]
+	if fc == nil {
+		return SU
+	}
+	h := fc.Header
+	i := strings.LastIndex(h, ")")
+	tail := strings.TrimSpace(h[i+1:])
+	if tail == "" {
+		// results in parentheses: take the last word before ')'
+		j := strings.LastIndex(h[:i], "(")
+		f := strings.Fields(h[j+1 : i])
+		if len(f) > 0 {
+			tail = f[len(f)-1]
+		}
+	}
+	switch tail {
+	case "int", "rune", "byte", "reflect.Kind", "Kind", "int64", "uint64", "uintptr":
+		return SInt
+	case "bool":
+		return SBool
+	}
+	return SU
 }
 
 func (e *Env) ghostVar(name, kind string) Value {
